@@ -268,6 +268,10 @@ def interval(t, ptypes):
         return rng
     if k == "call" and len(t[2]) == 1 and "convert::num::" in t[1] and t[1].endswith("::from"):
         return interval(t[2][0], ptypes)
+    if k == "proj" and t[2].endswith("::Ok") and t[1][0] == "call" and t[1][1] == "arbitrary::unstructured::Unstructured::<'a>::choose_index" and len(t[1][2]) == 2:
+        # contract (arbitrary 1.x): choose_index(len) is Err for len == 0 and otherwise Ok(i) with i < len
+        n = interval(t[1][2][1], ptypes)
+        return None if n is None or n[1] < 1 else (0, n[1] - 1)
     if k == "call" and len(t[2]) == 2 and t[1].split("::")[-1] in ("min", "max") and ("cmp::Ord" in t[1] or "core::cmp::" in t[1]):
         a, b = interval(t[2][0], ptypes), interval(t[2][1], ptypes)
         if t[1].split("::")[-1] == "min":
